@@ -17,8 +17,8 @@ variable {β : Type}
 
 /-- after `_correctValInNode(node, k, v)` a reader finds exactly `v` under tag `k`
     (an optional child occurs at most once, as the schema says) -/
-theorem correctVal_get (kids : Kids β) (k : String) (v : Option β) (h : cnt kids k ≤ 1) :
-    find (correctVal kids k v) k = v := by
+theorem correctVal_get (kids : Kids β) (k : String) (v : Option β) (later : List String) (h : cnt kids k ≤ 1) :
+    find (correctVal kids k v later) k = v := by
   unfold correctVal
   cases hf : find kids k with
   | none =>
@@ -31,7 +31,7 @@ theorem correctVal_get (kids : Kids β) (k : String) (v : Option β) (h : cnt ki
         · have := (find_isSome_iff kids k).mpr h'
           simp [hf] at this
       induction kids with
-      | nil => simp [find]
+      | nil => simp [find, insertBefore]
       | cons c r ih =>
         obtain ⟨t, w⟩ := c
         rw [cnt_cons] at h0 h
@@ -39,7 +39,10 @@ theorem correctVal_get (kids : Kids β) (k : String) (v : Option β) (h : cnt ki
         · simp [e] at h0
         · simp [e] at h0 h
           simp only [find, e, if_false] at hf
-          simpa [find, e] using ih h hf h0
+          by_cases hm : t ∈ later
+          · simp [insertBefore, hm, find]
+          · simp only [insertBefore, List.contains_eq_mem, hm, decide_false, Bool.false_eq_true, if_false, find, e]
+            exact ih h hf h0
   | some y =>
     cases v with
     | none =>
@@ -61,11 +64,23 @@ theorem correctVal_get (kids : Kids β) (k : String) (v : Option β) (h : cnt ki
           simpa [setFirst, find, e] using ih h hf
 
 /-- it touches nothing else: every other child keeps its value and its place -/
-theorem correctVal_frame (kids : Kids β) (k : String) (v : Option β) :
-    (correctVal kids k v).filter (fun c => c.1 != k) = kids.filter (fun c => c.1 != k) := by
+theorem correctVal_frame (kids : Kids β) (k : String) (v : Option β) (later : List String) :
+    (correctVal kids k v later).filter (fun c => c.1 != k) = kids.filter (fun c => c.1 != k) := by
   unfold correctVal
   cases hf : find kids k with
-  | none => cases v <;> simp [List.filter_append]
+  | none =>
+    cases v with
+    | none => rfl
+    | some x =>
+      simp only
+      clear hf
+      induction kids with
+      | nil => simp [insertBefore]
+      | cons c r ih =>
+        obtain ⟨t, w⟩ := c
+        by_cases hm : t ∈ later
+        · simp [insertBefore, hm, List.filter_cons]
+        · simp only [insertBefore, List.contains_eq_mem, hm, decide_false, Bool.false_eq_true, if_false, List.filter_cons, ih]
   | some y =>
     cases v with
     | none =>
@@ -227,6 +242,8 @@ theorem managed_exact {α : Type} [DecidableEq α] (managed : α → Bool) (want
 /-! ### non-vacuity -/
 example : correctVal [("color", 1), ("zfar", 2)] "zfar" (none : Option Nat) = [("color", 1)] := by decide
 example : correctVal [("color", 1)] "zfar" (some 7) = [("color", 1), ("zfar", 7)] := by decide
+example : correctVal [("color", 1), ("quadratic_attenuation", 3)] "constant_attenuation" (some 7)
+    ["linear_attenuation", "quadratic_attenuation", "zfar"] = [("color", 1), ("constant_attenuation", 7), ("quadratic_attenuation", 3)] := by decide
 example : redirect "pos-vertices" "pos" [⟨"VERTEX", "pos"⟩, ⟨"NORMAL", "pos"⟩, ⟨"TEXCOORD", "uv"⟩]
     = [⟨"VERTEX", "pos-vertices"⟩, ⟨"NORMAL", "pos"⟩, ⟨"TEXCOORD", "uv"⟩] := by decide
 example : emitProps ["emission", "diffuse", "shininess"] (fun p => if p = "diffuse" then none else some 1)
